@@ -54,6 +54,9 @@ func TestWorker(t *testing.T) {
 		want := tr.Violation
 		c := tr.Clone()
 		res, _ := ExecTrace(spec, c, nil, keepLog, scratch)
+		if keepLog {
+			fmt.Println(res.EventLog)
+		}
 		out := map[string]any{"property": prop, "replay": rp, "violation": res.Violation, "harness_error": res.Harness}
 		b, _ := json.Marshal(out)
 		fmt.Printf("REPLAY-RESULT %s\n", b)
